@@ -1,6 +1,6 @@
 (* C16 -- selective generation keeps exactly the listed RPCs and a closed set of types.
    Only statements, closed by [exact], each followed by Print Assumptions. *)
-From GV Require Import Base.Str Model.Selective Proofs.Selective.
+From GV Require Import Base.Str Gen.SelectiveKw Model.Selective Proofs.Selective.
 Open Scope list_scope.
 
 (* the traversal never runs out of its bound: whenever the roots of the listed methods can be
@@ -197,3 +197,16 @@ Example C16_ex_prune :
    end).
 Proof. exact ex_prune. Qed.
 Print Assumptions C16_ex_prune.
+
+(* T0 pin: the source fragments read with ast from the working tree are the ones the model mirrors *)
+Example C16_pin_naming :
+  client_name_parts = ["Base"; ""; "Client"] /\
+  async_client_name_parts = ["Base"; ""; "AsyncClient"] /\
+  client_method_name_src = "name = self.name + '_' if self.name.lower() in keyword.kwlist else self.name; return make_private(name) if self.is_internal else name" /\
+  make_private_src = "return object_name if object_name.startswith('_') else f'_{object_name}'" /\
+  service_is_internal_src = "return any((m.is_internal for m in self.methods.values()))" /\
+  method_with_internal_src = "if self.ident.proto in public_methods: return self; return dataclasses.replace(self, is_internal=True)" /\
+  settings_error_strings = ["Duplicate version"; "Method does not exist."; "Mismatched version for method."; "selective_gapic_generation"] /\
+  mem_str "import" kwlist = true /\ mem_str "get" kwlist = false.
+Proof. exact pin_naming. Qed.
+Print Assumptions C16_pin_naming.
